@@ -225,4 +225,137 @@ theorem speakerPosition_bad_lock (az el di : Bound) :
   unfold parseSpeakerPosition speakerPositionToXml
   simp [dumpBound, lockAttrs, speakerStep, attr?, elem, Xml.attrs, Xml.text, loadsNum_dumpsNum]
 
+/-! ### Objects position -/
+
+def ObjectPosition.sel : ObjectPosition → ScreenEdgeLock
+  | .polar _ _ _ s => s
+  | .cartesian _ _ _ s => s
+
+/-- the values the constructor of `ObjectPolarPosition` accepts (Cartesian positions are not range-checked) -/
+def ObjectPosition.inRange : ObjectPosition → Prop
+  | .polar az el di _ => -18000000 ≤ az ∧ az ≤ 18000000 ∧ -9000000 ≤ el ∧ el ≤ 9000000 ∧ 0 ≤ di
+  | .cartesian _ _ _ _ => True
+
+/-- **Objects position round trip**: polar (distance elided when 1.0) and Cartesian (Z elided when 0.0 and
+not locked) positions with valid screen edge locks are read back exactly. -/
+theorem objectPosition_roundtrip (p : ObjectPosition) (hs : SelOK p.sel) (hr : p.inRange) :
+    parseObjectPosition (objectPositionToXml p) = some p := by
+  cases p with
+  | polar az el di sel =>
+    obtain ⟨sh, sv⟩ := sel
+    obtain ⟨hh, hv⟩ := hs
+    simp only [ObjectPosition.sel] at hh hv
+    simp only [ObjectPosition.inRange] at hr
+    by_cases hd : di = 100000
+    · subst hd
+      rcases hh with rfl | rfl | rfl <;> rcases hv with rfl | rfl | rfl <;>
+        simp [parseObjectPosition, objectPositionToXml, dumpCoordinate, lockAttrs, objectStep, objectFinish,
+          attr?, elem, Xml.attrs, Xml.text, loadsNum_dumpsNum, sameKeys, Dict.get?, hr]
+    · rcases hh with rfl | rfl | rfl <;> rcases hv with rfl | rfl | rfl <;>
+        simp [parseObjectPosition, objectPositionToXml, dumpCoordinate, lockAttrs, objectStep, objectFinish,
+          attr?, elem, Xml.attrs, Xml.text, loadsNum_dumpsNum, sameKeys, Dict.get?, hr, hd]
+  | cartesian x y z sel =>
+    obtain ⟨sh, sv⟩ := sel
+    obtain ⟨hh, hv⟩ := hs
+    simp only [ObjectPosition.sel] at hh hv
+    by_cases hz : z = 0
+    · subst hz
+      rcases hh with rfl | rfl | rfl <;> rcases hv with rfl | rfl | rfl <;>
+        simp [parseObjectPosition, objectPositionToXml, dumpCoordinate, lockAttrs, objectStep, objectFinish,
+          attr?, elem, Xml.attrs, Xml.text, loadsNum_dumpsNum, sameKeys, Dict.get?]
+    · rcases hh with rfl | rfl | rfl <;> rcases hv with rfl | rfl | rfl <;>
+        simp [parseObjectPosition, objectPositionToXml, dumpCoordinate, lockAttrs, objectStep, objectFinish,
+          attr?, elem, Xml.attrs, Xml.text, loadsNum_dumpsNum, sameKeys, Dict.get?, hz]
+
+/-- outside the range the constructor refuses what was written (e.g. azimuth 181°) -/
+theorem objectPosition_out_of_range :
+    parseObjectPosition (objectPositionToXml (.polar 18100000 0 100000 ⟨none, none⟩)) = none := by
+  simp [parseObjectPosition, objectPositionToXml, dumpCoordinate, lockAttrs, objectStep, objectFinish,
+    attr?, elem, Xml.attrs, Xml.text, loadsNum_dumpsNum, sameKeys, Dict.get?]
+
+/-! ### gain -/
+
+/-- gain sub-element (both versions): the value comes back, `1.0` through the constructor default -/
+theorem gainElement_roundtrip (v2 : Bool) (k : Int) :
+    parseGainElements v2 (gainToXml k) = some (if k = 100000 then none else some (.linear k)) := by
+  by_cases h : k = 100000
+  · simp [parseGainElements, gainToXml, h]
+  · cases v2 <;>
+      simp [parseGainElements, gainToXml, h, handleGainElement, parseGain, attr?, elem, Xml.attrs, Xml.text,
+        loadsNum_dumpsNum]
+
+/-- optional gain (alternativeValueSet): `None` stays `None` -/
+theorem optionalGain_roundtrip (g : Option Int) :
+    parseGainElements true (optionalGainToXml g) = some (g.map .linear) := by
+  cases g <;>
+    simp [parseGainElements, optionalGainToXml, handleGainElement, parseGain, attr?, elem, Xml.attrs, Xml.text,
+      loadsNum_dumpsNum]
+
+/-- gain attribute of a matrix coefficient (both versions), on any element carrying the written attributes
+first (other attributes named differently do not matter) -/
+theorem gainAttribute_roundtrip (v2 : Bool) (g : Option Int) (tag : QName) (cs : List Xml) (text : String) :
+    handleGainAttribute v2 (.node tag (gainAttributeToXml g) cs text) = some (g.map .linear) := by
+  cases g <;> cases v2 <;>
+    simp [handleGainAttribute, gainAttributeToXml, parseGain, attr?, Xml.attrs, loadsNum_dumpsNum]
+
+/-- a gain given in dB is accepted by the BS.2076-2 parser and refused by the BS.2076-1 one; `to_xml` never
+writes a unit, so a dB gain comes back as a linear value after one round trip (value `10 ** (g/20)`, not on
+the printable grid: outside the property's quantifier) -/
+theorem gain_dB_versions (k : Int) :
+    handleGainElement true false (elem "gain" [("gainUnit", "dB")] (dumpsNum k)) = some (.dB k) ∧
+    handleGainElement false false (elem "gain" [("gainUnit", "dB")] (dumpsNum k)) = none := by
+  simp [handleGainElement, parseGain, attr?, elem, Xml.attrs, Xml.text, loadsNum_dumpsNum]
+
+/-! ### channelLock, objectDivergence -/
+
+theorem channelLock_roundtrip (c : Option ChannelLock) : parseChannelLock (channelLockToXml c) = some c := by
+  cases c with
+  | none => simp [parseChannelLock, channelLockToXml]
+  | some c =>
+    obtain ⟨m⟩ := c
+    cases m <;>
+      simp [parseChannelLock, channelLockToXml, handleChannelLock, attr?, elem, Xml.attrs, Xml.text,
+        loadsNum_dumpsNum]
+
+theorem divergence_roundtrip (d : Option ObjectDivergence) : parseDivergence (divergenceToXml d) = some d := by
+  cases d with
+  | none => simp [parseDivergence, divergenceToXml]
+  | some d =>
+    obtain ⟨v, a, p⟩ := d
+    cases a <;> cases p <;>
+      simp [parseDivergence, divergenceToXml, handleDivergence, optNum, attr?, elem, Xml.attrs, Xml.text,
+        loadsNum_dumpsNum]
+
+/-! ### zoneExclusion -/
+
+theorem parseZone_zoneToXml (z : Zone) : parseZone (zoneToXml z) = some z := by
+  cases z <;>
+    simp [parseZone, zoneToXml, cartKeys, polarKeys, hasKey, attr?, elem, Xml.attrs, loadsNum_dumpsNum]
+
+theorem zoneToXml_tag (z : Zone) : (zoneToXml z).tag = outName "zone" := by
+  cases z <;> rfl
+
+theorem mapM_parseZone (zs : List Zone) : (zs.map zoneToXml).mapM parseZone = some zs := by
+  induction zs with
+  | nil => rfl
+  | cons z zs ih => simp [List.mapM_cons, parseZone_zoneToXml, ih]
+
+theorem mapM_parseZone' (zs : List Zone) : zs.mapM (parseZone ∘ zoneToXml) = some zs := by
+  induction zs with
+  | nil => rfl
+  | cons z zs ih => simp [List.mapM_cons, parseZone_zoneToXml, ih]
+
+/-- any list of Cartesian / polar zones comes back; the empty list is elided and restored by the constructor
+default `[]` -/
+theorem zoneExclusion_roundtrip (zs : List Zone) :
+    parseZoneExclusion (zoneExclusionToXml zs) = some (if zs = [] then none else some zs) := by
+  by_cases h : zs = []
+  · simp [parseZoneExclusion, zoneExclusionToXml, h]
+  · have hf : (zs.map zoneToXml).filter (fun c => matchesName c.tag "zone") = zs.map zoneToXml := by
+      apply List.filter_eq_self.mpr
+      intro c hc
+      obtain ⟨z, _, rfl⟩ := List.mem_map.mp hc
+      rw [zoneToXml_tag]; exact matchesName_outName "zone"
+    simp [parseZoneExclusion, zoneExclusionToXml, h, parseZoneExclusionElement, Xml.children, hf, mapM_parseZone']
+
 end Earverif.XmlCustom
